@@ -147,6 +147,15 @@ def attribute(findings, c, key, v, what):
                     any(swallows_objects(a["details"], es[i].get("deny")) and any(objectlike(b["details"]) for b in es[i]["variants"][k + 1:])
                         for k, a in enumerate(es[i]["variants"])) for i in reach):
                 return fd
+        if fd["id"] == "C03-variant-shared-inline-type" and what in ("not-contained", "not-fixed-point", "invalid"):
+            from props import c05 as _c05
+            pairs = _c05.shared_variant_types(c.dump)
+            def hit2(x):
+                if isinstance(x, dict):
+                    return any(tg in x and any(k in x for k in ks) for tg, ks in pairs) or any(hit2(y) for y in x.values())
+                if isinstance(x, list): return any(hit2(y) for y in x)
+                return False
+            if pairs and hit2(v): return fd
         if fd["id"] == "C03-anyof-flatten-shared-member" and what in ("not-contained", "not-fixed-point", "invalid"):
             # a struct of flattened Option<struct> members two of which declare a member of the same name
             for i in reach:
